@@ -23,6 +23,12 @@ F. Realisations of the sources (real classes only; the model knows one kind of o
    (var, entity, var missing=, expression, _[name], _.getitem(name, 0), _.has_key(name)); a grid (kind x place x value kind)
    plus random nestings, each compiled program rendered under several realisations in a row; expected = reference resolver
    using getattr / [] / call on a second copy of the objects.
+G. Template objects with a history (real classes only): populations of 2-6 templates of both classes (HTML, String) that are
+   pickled / loaded (protocols 0, 2, highest), copy.copy'ed, copy.deepcopy'ed, have their __getstate__ moved into an instance
+   made by the constructor or by __new__, get variables (var) and defaults (default) set, get new text / new defaults
+   (munge), in every order, and are rendered in between directly (every subset of the sources) and by name from a template
+   of either class; a grid (class pair x way a came back x way b came back x subset of b's lower sources x var / default set
+   on a) plus random histories; expected = one {defaults, variables} record per object + the documented order.
 Correspondence: the programs of A-D on the Lean interpreter model (results + call traces).
 """
 import itertools
@@ -1225,6 +1231,298 @@ def source_kind_cases(res, r, tier, out=None):
             one(('random', zlib.crc32(f_src(prog['nodes']).encode()) % 100000, j, tuple(kinds)), prog, compiled, world)
 
 
+# --------------------------------------------------------------------------- G: template objects with a history
+#
+# Parts A-F render freshly constructed templates.  The property speaks of "variables set on THE template" and of a template's
+# "own defaults": both are state of one template object, and a template object has a life - it is pickled and loaded, copied
+# (copy.copy / copy.deepcopy), has its state moved into a new instance (__getstate__ -> __dict__ of an instance made by the
+# constructor or by __new__), gets variables (var) and defaults (default) set, has its text or its defaults replaced (munge),
+# and all that happens to SEVERAL templates (of both classes) living side by side.  Part G generates such populations with
+# their histories and renders members in between: directly under every subset of the sources, and by name from a template of
+# either class.  Reference: a plain record per object {defaults, variables} - a copy of an object has equal but separate
+# records, var / default change the record of the object they are called on and of no other, munge with new defaults starts
+# the record anew - and the documented order over (kw, variables, clients last first, mapping, defaults).
+
+G_CLASSES = ('HTML', 'String')
+G_NAMES = ('x', 'y', 'z')
+# ways an object comes back from its state; second field: the copy shares its members with the original (a shallow copy), so
+# the copy takes the original's place in the population
+G_CLONES = {'pickle0': False, 'pickle2': False, 'pickle-highest': False, 'deepcopy': False, 'copy': True,
+            'state-into-constructed': True, 'state-into-new': True, 'deep-state-into-new': False}
+
+
+def g_source(cls, probes):
+    out = []
+    for n, missing in probes:
+        if cls == 'HTML':
+            out.append('[%s=<dtml-var %s%s>]' % (n, n, ' missing="UNDEF"' if missing else ''))
+        else:
+            out.append('[%s=%%(%s%s)s]' % (n, n, ' missing=UNDEF' if missing else ''))
+    return ''.join(out)
+
+
+class GClient:
+    def __init__(self, d):
+        self.__dict__.update(d)
+
+
+class GModel:
+    """reference: one record per template object"""
+
+    def __init__(self):
+        self.pool = []
+
+    @staticmethod
+    def merged(cmapping, ckw):
+        d = dict(ckw)
+        for k, v in (cmapping or {}).items():
+            if not k.startswith('_') and k not in d:
+                d[k] = v
+        return d
+
+    def step(self, st):
+        """-> None | expected outcome of a rendering step"""
+        import copy
+        k = st[0]
+        if k == 'new':
+            self.pool.append({'cls': st[1], 'probes': st[2], 'defaults': self.merged(st[3], st[4]), 'vars': {}})
+        elif k == 'clone':
+            c = copy.deepcopy(self.pool[st[1]])
+            if st[3]:
+                self.pool[st[1]] = c
+            else:
+                self.pool.append(c)
+        elif k == 'var':
+            self.pool[st[1]]['vars'].update(st[2])
+        elif k == 'default':
+            self.pool[st[1]]['defaults'].update(st[2])
+        elif k == 'munge':
+            o = self.pool[st[1]]
+            o['probes'] = st[2]
+            if st[3] is not None or st[4]:
+                o['defaults'], o['vars'] = self.merged(st[3], st[4]), {}
+        elif k == 'render':
+            o = self.pool[st[1]]
+            layers = [st[4], o['vars']] + list(reversed(st[2] or [])) + [st[3] or {}, o['defaults']]
+            return self.show(o['probes'], layers)
+        elif k == 'render-sub':
+            # by name from another template: the caller's namespace with the sub-template's own defaults (and the variables set
+            # on it) laid on top
+            o = self.pool[st[1]]
+            outer_cls, clients, mapping, kw, outer_ckw = st[2:]
+            layers = [o['vars'], o['defaults'], kw] + list(reversed(clients or [])) + [mapping or {}, outer_ckw]
+            r = self.show(o['probes'], layers)
+            return ('ok', '{%s}' % r[1]) if r[0] == 'ok' else r
+        else:
+            raise ValueError(k)
+
+    @staticmethod
+    def show(probes, layers):
+        out = []
+        for n, missing in probes:
+            v = next((d[n] for d in layers if n in d), None)
+            if v is None:
+                if not missing:
+                    return ('raise', 'KeyError', n)
+                v = 'UNDEF'
+            out.append('[%s=%s]' % (n, v))
+        return ('ok', ''.join(out))
+
+
+class GReal:
+    """the same steps on the real classes"""
+
+    def __init__(self):
+        self.pool = []
+
+    @staticmethod
+    def cls(name):
+        from DocumentTemplate.DT_HTML import HTML
+        from DocumentTemplate.DT_String import String
+        return {'HTML': HTML, 'String': String}[name]
+
+    def clone(self, t, how):
+        import copy
+        import pickle
+        if how.startswith('pickle'):
+            proto = {'pickle0': 0, 'pickle2': 2, 'pickle-highest': pickle.HIGHEST_PROTOCOL}[how]
+            return pickle.loads(pickle.dumps(t, proto))
+        if how == 'deepcopy':
+            return copy.deepcopy(t)
+        if how == 'copy':
+            return copy.copy(t)
+        c = type(t)() if how == 'state-into-constructed' else type(t).__new__(type(t))
+        state = t.__getstate__()
+        c.__dict__.update(copy.deepcopy(state) if how.startswith('deep') else state)
+        return c
+
+    def step(self, st):
+        k = st[0]
+        if k == 'new':
+            args = (g_source(st[1], st[2]),) + ((dict(st[3]),) if st[3] is not None else ())
+            self.pool.append(self.cls(st[1])(*args, **dict(st[4])))
+        elif k == 'clone':
+            c = self.clone(self.pool[st[1]], st[2])
+            if st[3]:
+                self.pool[st[1]] = c
+            else:
+                self.pool.append(c)
+        elif k == 'var':
+            self.pool[st[1]].var(**st[2])
+        elif k == 'default':
+            self.pool[st[1]].default(**st[2])
+        elif k == 'munge':
+            t = self.pool[st[1]]
+            src = g_source(type(t).__name__, st[2])
+            if st[3] is not None:
+                t.munge(src, dict(st[3]), **dict(st[4]))
+            else:
+                t.munge(src, **dict(st[4]))
+        elif k in ('render', 'render-sub'):
+            t = self.pool[st[1]]
+            if k == 'render':
+                clients, mapping, kw = st[2:]
+            else:
+                outer_cls, clients, mapping, kw, outer_ckw = st[2:]
+                kw = dict(kw, t=t)
+                t = self.cls(outer_cls)('{<dtml-var t>}' if outer_cls == 'HTML' else '{%(t)s}', **dict(outer_ckw))
+            client = None
+            if clients is not None:
+                client = GClient(clients[0]) if len(clients) == 1 else tuple(GClient(c) for c in clients)
+            try:
+                if mapping is None:
+                    return ('ok', t(client, **dict(kw)))
+                return ('ok', t(client, dict(mapping), **dict(kw)))
+            except KeyError as e:
+                return ('raise', 'KeyError', e.args[0] if e.args else None)
+            except Exception as e:  # noqa
+                return ('raise', type(e).__name__, str(e)[:200])
+        else:
+            raise ValueError(k)
+
+
+def g_run_history(res, key, steps, fails):
+    """runs one history on the reference and on the real classes; every rendering step is compared"""
+    model, real = GModel(), GReal()
+    for i, st in enumerate(steps):
+        exp = model.step(st)
+        try:
+            got = real.step(st)
+        except Exception as e:  # noqa
+            got = ('step-raised', type(e).__name__, str(e)[:200])
+            exp = exp or 'the step succeeds'
+        if st[0] in ('render', 'render-sub') or exp is not None:
+            res.evaluations += 1
+            res.count('part=G')
+            res.count('G:' + st[0])
+            if got != exp:
+                pool = [dict(o, cls=o['cls']) for o in model.pool]
+                fails.append({'case': {'part': 'G', 'key': key, 'history': steps[:i + 1], 'failing_step': i,
+                                       'reference_records': pool},
+                              'what': 'template objects with a history: step %d %r: each object has its own variables and '
+                                      'defaults, so the documented order gives %r; the engine gives %r' % (i, st, exp, got)})
+                return False
+    res.nt(('G',) + key)
+    return True
+
+
+def g_vals(r, label, names=G_NAMES, p=0.5):
+    return {n: '%s.%s' % (label, n) for n in names if r.random() < p}
+
+
+def g_probes(r):
+    names = r.sample(G_NAMES, r.randint(1, 3))
+    return [[n, r.random() < 0.7] for n in names]
+
+
+def g_render_step(r, i, tag, p=0.4):
+    ncl = r.choice([None, None, 1, 1, 2])
+    clients = None if ncl is None else [g_vals(r, '%s.client%d' % (tag, j), p=p) for j in range(ncl)]
+    mapping = g_vals(r, tag + '.mapping', p=p) if r.random() < 0.6 else None
+    kw = g_vals(r, tag + '.kw', p=0.15)
+    if r.random() < 0.3:
+        return ['render-sub', i, r.choice(G_CLASSES), clients, mapping, kw, g_vals(r, tag + '.outer', p=0.3)]
+    return ['render', i, clients, mapping, kw]
+
+
+def g_random_history(r):
+    steps = []
+    n = 0
+    for j in range(r.randint(2, 4)):
+        steps.append(['new', r.choice(G_CLASSES), g_probes(r), g_vals(r, 'o%d.cmapping' % j) if r.random() < 0.4 else None,
+                      g_vals(r, 'o%d.ckw' % j, p=0.4)])
+        n += 1
+    for s in range(r.randint(6, 16)):
+        i = r.randrange(n)
+        tag = 's%d' % s
+        k = r.choice(['clone', 'clone', 'clone', 'var', 'var', 'default', 'munge', 'render', 'render', 'render', 'render'])
+        if k == 'clone':
+            how = r.choice(list(G_CLONES))
+            replace = G_CLONES[how] or n >= 6 or r.random() < 0.5
+            steps.append(['clone', i, how, replace])
+            n += 0 if replace else 1
+        elif k == 'var':
+            steps.append(['var', i, g_vals(r, tag + '.var', p=0.45) or {'x': tag + '.var.x'}])
+        elif k == 'default':
+            steps.append(['default', i, g_vals(r, tag + '.default', p=0.4) or {'y': tag + '.default.y'}])
+        elif k == 'munge':
+            again = r.random() < 0.4
+            steps.append(['munge', i, g_probes(r), (g_vals(r, tag + '.mmapping') or {'z': tag + '.mmapping.z'})
+                          if again and r.random() < 0.5 else None, g_vals(r, tag + '.mkw', p=0.4) if again else {}])
+        else:
+            steps.append(g_render_step(r, i, tag))
+    # at the end every member is rendered: alone, under all sources, and by name
+    for i in range(n):
+        steps.append(['render', i, None, None, {}])
+        steps.append(g_render_step(r, i, 'end%d' % i, p=0.6))
+    return steps
+
+
+def g_grid(r, tier):
+    """two templates a, b (every pair of classes) and a third one c that defines nothing, each brought back from its state in
+    every way (or not at all); then a variable / a default is set on a; b is rendered under every subset of its own sources
+    below the template variables (client, mapping, construction keywords, construction mapping) and by name, c alone"""
+    lows = [set(c) for k in range(5) for c in itertools.combinations(['client', 'mapping', 'ckw', 'cmapping'], k)]
+    hows = [None] + list(G_CLONES)
+    for ca, cb in itertools.product(G_CLASSES, G_CLASSES):
+        for ha, hb in itertools.product(hows, hows):
+            for low in (lows if tier == 'thorough' else r.sample(lows, 6)):
+                for op in (('var', 'default') if tier == 'thorough' else (r.choice(['var', 'var', 'default']),)):
+                    pr = [['x', True], ['y', True]]
+                    steps = [['new', ca, pr, None, {'x': 'a.ckw.x'} if r.random() < 0.5 else {}],
+                             ['new', cb, pr, {'x': 'b.cmapping.x', 'y': 'b.cmapping.y'} if 'cmapping' in low else None,
+                              {'x': 'b.ckw.x'} if 'ckw' in low else {}],
+                             ['new', cb, [['x', False]], None, {}]]
+                    if ha:
+                        steps.append(['clone', 0, ha, True])
+                    if hb:
+                        steps += [['clone', 1, hb, True], ['clone', 2, hb, True]]
+                    steps.append([op, 0, {'x': 'a.%s.x' % op, 'y': 'a.%s.y' % op}])
+                    clients = [{'x': 'b.client.x'}] if 'client' in low else None
+                    mapping = {'x': 'b.mapping.x'} if 'mapping' in low else None
+                    steps += [['render', 0, [{'x': 'a.client.x'}], None, {}],
+                              ['render', 1, clients, mapping, {}],
+                              ['render-sub', 1, ca, clients, mapping, {}, {'y': 'outer.ckw.y'}],
+                              ['render', 2, None, None, {}],
+                              ['render', 2, [{'x': 'c.client.x'}], None, {}],
+                              ['var', 1, {'y': 'b.var.y'}],
+                              ['render', 0, None, None, {}], ['render', 1, clients, mapping, {}],
+                              ['render', 2, None, {'x': 'c.mapping.x'}, {}]]
+                    yield ('grid', ca, cb, ha, hb, op, tuple(sorted(low))), steps
+
+
+def history_cases(res, r, tier, out=None):
+    fails = res.oracle_fail if out is None else out
+    for key, steps in g_grid(r, tier):
+        g_run_history(res, key, steps, fails)
+    for i in range(400 if tier == 'quick' else 6000):
+        steps = g_random_history(r)
+        kinds = tuple(sorted({st[2] for st in steps if st[0] == 'clone'}))
+        g_run_history(res, ('random', kinds, len(steps), i), steps, fails)
+        if len(fails) > 20:
+            break
+
+
 # --------------------------------------------------------------------------- driver
 
 def check(res, items, have_driver):
@@ -1292,13 +1590,20 @@ def run(res, tier, have_driver):
                 'and all value kinds (also 0, [], false objects, bound methods, callables returning empty / a callable / raising '
                 'NameError), every compiled program rendered under 4 different realisations in a row; expected output, '
                 'exception class + undefined name and call log from a reference resolver that walks the documented order with getattr / [] / call on '
-                'a second copy of the objects; left out: a call mapping that is false as an object (see partial); non-trivial = '
+                'a second copy of the objects; G (real classes only): populations of HTML / String template objects with a history - '
+                'pickle round trips (protocols 0, 2, highest), copy.copy, copy.deepcopy, __getstate__ moved into a constructed / '
+                '__new__-made instance, var, default, munge (text / new defaults) in every order - rendered in between directly '
+                'under subsets of the sources and by name from a template of either class: grid (class pair x 9 x 9 ways the two '
+                'came back x subsets of the lower sources x var / default set on the other template) + random histories; expected '
+                'from one {defaults, variables} record per object and the documented order; '
+                'left out: a call mapping that is false as an object (see partial); non-trivial = '
                 'distinct (part, kind, subset / block kinds / form / place / realisation) keys' % (
                     len(ATTR_KINDS), len(MAP_KINDS), len(VALUE_KINDS)))
     items = all_items(r, tier, 600 if tier == 'quick' else 8000)
     runs = check(res, items, have_driver)
     dynamic_cases(res)
     source_kind_cases(res, common.rng('C02-F'), tier)
+    history_cases(res, common.rng('C02-G'), tier)
     res.exhaustive = True
     for i in (5, len(runs) // 2, len(runs) - 1):
         c, plan, impl, m = runs[i]
@@ -1308,6 +1613,8 @@ def run(res, tier, have_driver):
                        'consults them; the same kinds are covered as with / in mappings, where they are consulted')
     res.assumptions += ['interpreter model validated (not verified) against the real classes',
                         'part F (kinds of objects / mappings / false values) is oracle-only: not represented in the Lean model',
+                        'part G (template objects with a history) is oracle-only; a shallow copy (copy.copy, state moved without '
+                        'copying) takes the place of its original in the population (it shares its members with it)',
                         'no security guard installed (guards: C05)']
 
 
@@ -1316,6 +1623,7 @@ def search_more(res, tier):
     res2 = common.Result('C02')
     check(res2, all_items(r, 'thorough', 3000), False)
     source_kind_cases(res2, common.rng('C02-F-more'), 'thorough')
+    history_cases(res2, common.rng('C02-G-more'), 'thorough')
     return res2.oracle_fail
 
 
